@@ -114,6 +114,16 @@ theorem gm_cu1 (l : P) : gateMatrix (α := α) 6 "cu1" [l] =
       (app2 [0, 1] (app2 [0, 1] matCX I4) (app2 [1] (wrap1 (matU z0 z0 (Angle.neg (Angle.div l two))))
         (app2 [0, 1] (app2 [0, 1] matCX I4) (app2 [0] (wrap1 (matU z0 z0 (Angle.div l two))) I4))))) := by rfl
 
+set_option maxHeartbeats 400000 in
+theorem gm_cu3 (t p l : P) : gateMatrix (α := α) 6 "cu3" [t, p, l] =
+    some (app2 [1] (wrap1 (matU (Angle.div t two) p z0))
+      (app2 [0, 1] (app2 [0, 1] matCX I4)
+        (app2 [1] (wrap1 (matU (Angle.neg (Angle.div t two)) z0 (Angle.neg (Angle.div (Angle.add p l) two))))
+          (app2 [0, 1] (app2 [0, 1] matCX I4)
+            (app2 [1] (wrap1 (matU z0 z0 (Angle.div (Angle.sub l p) two)))
+              (app2 [0] (wrap1 (matU z0 z0 (Angle.div (Angle.add l p) two))) I4)))))) := by rfl
+
+
 theorem apps_CRZ (l : P) : libApps libTable "CRZ" [.direct l] = some [("crz", [l], [0, 1])] := by rfl
 theorem apps_CU1 (l : P) : libApps libTable "CU1" [.direct l] = some [("cu1", [l], [0, 1])] := by rfl
 theorem apps_CU3 (t p l : P) : libApps libTable "CU3" [.direct t, .direct p, .direct l] =
@@ -134,5 +144,63 @@ theorem libMeaning_of2 {name : String} {ps : List (QParam P)} (apps : List (Stri
   | some t =>
     simp only [h, Option.map_some, Option.some.injEq] at h1
     simp [h2, h1, seqMatrix_eq, I4]
+
+/-! ### one-qubit matrices in closed form -/
+
+/-- further laws of the angle arithmetic, for quarter angles and sums (cosines and sines only) -/
+structure LawfulAngle2 (α P : Type) [CommRing α] [Amp α P] [Angle P] : Prop where
+  q_cos : ∀ x : P, (Amp.cos (Amp.phalf α (Angle.div x two)) : α) = Amp.cos (Amp.phalf α (Amp.phalf α x))
+  q_sin : ∀ x : P, (Amp.sin (Amp.phalf α (Angle.div x two)) : α) = Amp.sin (Amp.phalf α (Amp.phalf α x))
+  qn_cos : ∀ x : P, (Amp.cos (Amp.phalf α (Angle.div (Angle.neg x) two)) : α) = Amp.cos (Amp.phalf α (Amp.phalf α x))
+  qn_sin : ∀ x : P, (Amp.sin (Amp.phalf α (Angle.div (Angle.neg x) two)) : α) = -Amp.sin (Amp.phalf α (Amp.phalf α x))
+  nq_cos : ∀ x : P, (Amp.cos (Amp.phalf α (Angle.neg (Angle.div x two))) : α) = Amp.cos (Amp.phalf α (Amp.phalf α x))
+  nq_sin : ∀ x : P, (Amp.sin (Amp.phalf α (Angle.neg (Angle.div x two))) : α) = -Amp.sin (Amp.phalf α (Amp.phalf α x))
+  add_cos : ∀ x y : P, (Amp.cos (Angle.div (Angle.add x y) two) : α) = Amp.cos (Amp.padd α (Amp.phalf α x) (Amp.phalf α y))
+  add_sin : ∀ x y : P, (Amp.sin (Angle.div (Angle.add x y) two) : α) = Amp.sin (Amp.padd α (Amp.phalf α x) (Amp.phalf α y))
+  sub_cos : ∀ x y : P, (Amp.cos (Angle.div (Angle.sub x y) two) : α) =
+    Amp.cos (Amp.padd α (Amp.phalf α x) (Amp.pneg α (Amp.phalf α y)))
+  sub_sin : ∀ x y : P, (Amp.sin (Angle.div (Angle.sub x y) two) : α) =
+    Amp.sin (Amp.padd α (Amp.phalf α x) (Amp.pneg α (Amp.phalf α y)))
+
+section lawful
+variable (h : LawfulAmp α P) (hh : LawfulHalf α P) (ha : LawfulAngle α P) (ha2 : LawfulAngle2 α P)
+include h ha
+
+/-- `U(0, 0, x) = diag(1, e^{ix})` -/
+theorem matU_diag (x : P) : (matU (z0 : P) z0 x : LMat α) = [[1, 0], [0, OQ2.expi x]] := by
+  simp only [matU, expi_padd h ha, expi_zero h ha, ha.cos_half_zero, ha.sin_half_zero]
+  refine mat2_ext ?_ ?_ ?_ ?_ <;> ring
+
+/-- `U(x, 0, 0)` is the rotation `[[c, −s], [s, c]]` by `x/2` -/
+theorem matU_rot (x : P) : (matU x (z0 : P) z0 : LMat α) =
+    [[Amp.cos (Amp.phalf α x), -Amp.sin (Amp.phalf α x)], [Amp.sin (Amp.phalf α x), Amp.cos (Amp.phalf α x)]] := by
+  simp only [matU, expi_padd h ha, expi_zero h ha]
+  refine mat2_ext ?_ ?_ ?_ ?_ <;> ring
+
+theorem expi_neg (x : P) : (OQ2.expi (Angle.neg x) : α) = Amp.cos x - Amp.I P * Amp.sin x := by
+  simp only [OQ2.expi, ha.cos_neg, ha.sin_neg]; ring
+
+theorem expi_mul_neg (x : P) : (OQ2.expi x : α) * OQ2.expi (Angle.neg x) = 1 := by
+  rw [expi_neg h ha]
+  simp only [OQ2.expi]
+  linear_combination h.cos_sq_add_sin_sq x - (Amp.sin x * Amp.sin x : α) * h.I_mul_I
+
+theorem expi_div_two (x : P) : (OQ2.expi (Angle.div x two) : α) =
+    Amp.cos (Amp.phalf α x) + Amp.I P * Amp.sin (Amp.phalf α x) := by
+  simp only [OQ2.expi, ha.cos_div_two, ha.sin_div_two]
+
+/-- `CRZ(λ)` is exported as `crz(λ)`, whose body is exactly the controlled `RZ(λ)` -/
+theorem crz_ok (l : P) : LibGateOK α P libTable "CRZ" [l] := by
+  refine ⟨_, .C (.RZ l), libMeaning_of2 _ rfl (apps_CRZ l), rfl, PhaseEq.of_eq h ?_⟩
+  simp only [seqFrom, gm_crz, Option.bind, wrap1_matU, matU_diag h ha, cxM_eq, I4_eq, app2_target, app2_cx]
+  rw [← I4_eq, app2_both]
+  simp only [specMatrix, rot, pauliZ, LMat.get, List.range_succ, ctrl_two]
+  have e := expi_mul_neg h ha (Angle.div l two)
+  rw [expi_neg h ha, expi_div_two h ha] at e
+  simp
+  refine bd2_ext ?_ ?_ ?_ ?_ ?_ ?_ ?_ ?_ <;>
+    simp only [expi_neg h ha, expi_div_two h ha, ha.cos_div_two, ha.sin_div_two] <;> grind
+
+end lawful
 
 end Q1t.OpenQasm
